@@ -45,7 +45,9 @@ RULE = (
     "with drawn integer eigen-angles a_k (so that 0 < delta < 1 is frequent), CP maps (positively scaled channels, seeded "
     "Kraus families of drawn size, Choi = identity), Hermiticity-preserving maps (differences and signed combinations of "
     "channels, signed Kraus sums with at least one coefficient of each sign), scalars c of both signs from a grid or a "
-    "drawn float, a unitary for pre/post composition, seeds for bipartite pure input states. All Choi matrices are built "
+    "drawn float, a unitary for pre/post composition, seeds for bipartite pure input states; for the channel-fidelity laws "
+    "half of the pairs are full rank ((1-q) Phi + q x completely depolarising, or Stinespring maps with d^2 Kraus "
+    "operators), a quarter are unitary pairs with delta >= 0.13 and a quarter unconstrained. All Choi matrices are built "
     "by ref.choi_of_pairs (input system first). A case is non-trivial when: the two channels differ (diamond/fidelity "
     "laws); the unitary pair does not commute and 0 < delta < 1 (closed forms); the composing unitary is not diagonal "
     "(invariance); the map is not a unitary channel (value-1 shortcut); Phi*(I) is not a multiple of a rank-one projector, "
@@ -60,7 +62,7 @@ ASSUMPTIONS = [
     "solver noise bounds the visible defect size: 1e-5*max(1,||J||_1) for the picos/cvxopt values, 1e-4 (equalities) / 2e-4 (order relations) for the SCS-valued channel_fidelity",
     "cvxpy 'Solution may be inaccurate' warnings, solver exceptions and per-case time limits are inconclusive, never violations and never passes",
     "the independent CLARABEL/SCS programs are used as oracles only when they report status 'optimal'; their achieved-state certificates are checked with numpy",
-    "channel_fidelity pairs with true value 0 in d >= 4 are not generated (SCS needs minutes and stops at its iteration cap); d = 4, 5 use unitary pairs with delta > 0",
+    "channel_fidelity: SCS stops at its iteration cap with status 'inaccurate' when the true value is 0 and for most pairs of rank-deficient Choi matrices with different supports (3 s in d=2, 15 s in d=3, minutes above); such cases are inconclusive, and the generators bias towards full-rank pairs and unitary pairs with delta >= 0.13; d = 4, 5 use unitary pairs with delta > 0 only",
     "cb trace norm of CP maps: the open known finding 6.20 (trace norm of Phi*(I) returned) is recognised by its observable and filtered by signature wherever a CP, non-channel map is evaluated",
     "fidelity_of_separability (channel version): only dims [2,2,2], k in {1,2}; rejection is asserted for states with largest eigenvalue <= 1-1e-3, |trace-1| >= 1e-3, an eigenvalue <= -1e-2, or a non-Hermitian part >= 0.05",
 ]
